@@ -310,7 +310,7 @@ func oracleServe(st Store, c Case, obs serveObs, ctx *hx.Ctx) (problems []string
 	// a name that does not exist is not found
 	// (checked by the walk for existing names; here: every regular file read returns the bytes of the tar)
 	for _, o := range append(append([]readOut{}, obs.outs...), obs.par...) {
-		if !o.isRead {
+		if !o.isRead || o.model {
 			continue
 		}
 		fi := obs.files[o.f]
